@@ -14,7 +14,7 @@ from mpilot.exceptions import MPilotError  # noqa: E402
 
 
 def mk_arr(s):
-    dt = {'f': float, 'i': int, 'b': bool}[s['kind']]
+    dt = {'f': float, 'i': int, 'b': bool, 'u': numpy.uint64}[s['kind']]
     d = numpy.array(s['data'], dtype=dt).reshape(s['shape'])
     if s['rep'] == 'nd':
         return d
